@@ -298,7 +298,7 @@ def main(prop):
         else:
             ck.rule = ("4 queries per generated file: " + ("node lists with repeats and unaligned nodes" if prop == "C04" else "1-3 regions: inside one node, on node boundaries, spanning several nodes, over unaligned nodes, haplotype contigs")
                        + "; with and without --format; plain/BGZF; non-trivial = file with >= 2 records where the query selects some but not all records, or nothing")
-            c04_c05(ck, prop, tmp, 80 if quick else 2000)
+            c04_c05(ck, prop, tmp, 80 if quick else 800)
             if prop == "C05":
                 # the region syntax itself (CONTIG:a-b as get_unstable / search split and convert it): Model/TextLayer.lean
                 # parseRegion, theorems in Props/TextLayer.lean (Audit/C05_extra.lean)
